@@ -13,7 +13,7 @@ From Coq Require Import List.
 Import ListNotations.
 From GoSh Require Import Print.Heredocs.
 From GoSh Require Import Base.Bytes Base.Utf8 Expand.Expand Lex.Quote Lex.Reprint.
-From GoSh Require Lex.Reprint2.
+From GoSh Require Lex.Reprint2 Lex.Reprint3.
 
 (** For every sequence of printer operations -- any nesting of levels and of multi-line expansions,
     any placement of newlines, expansions printed in the middle of a body -- that runs without fault
@@ -79,3 +79,19 @@ Theorem C05_printed_word_with_parameters_is_scanned_back :
     exists F, Reprint2.scan_word2 F (Reprint2.print_parts2 w ++ rest) [] = Some (w, rest).
 Proof. exact Reprint2.scan_print_scan2. Qed.
 Print Assumptions C05_printed_word_with_parameters_is_scanned_back.
+
+(** And with braced parameter expansions: ${name}, ${#name} and ${name op word} with the fourteen
+    operators, special and positional parameters, the word scanned up to the closing brace with
+    quotations, parameters and nested braced expansions to any depth, outside and inside double
+    quotes (rune-level model Lex/Reprint3.v of scanRawToken's word loop, scanQuote, scanParamExp and
+    scanParamExpInBraces with its look-ahead after ${#; compared with the lexer and with
+    printer.Fprint on every run).  For every text the model scanner accepts, followed by any rest,
+    the parts it returns, printed and followed by the same rest, are scanned to exactly the same
+    parts and rest.  (Outside the fragment: command substitutions, arithmetic, line continuations
+    inside braces and directly after a name -- where open finding F64 lives --, a dollar that stays
+    literal, non-ASCII characters next to a name.) *)
+Theorem C05_printed_word_with_braced_expansions_is_scanned_back :
+  forall f s w rest, Reprint3.scan_word3 f s [] = Some (w, rest) ->
+    exists F, Reprint3.scan_word3 F (Reprint3.print_parts3 w ++ rest) [] = Some (w, rest).
+Proof. exact Reprint3.scan_print_scan3. Qed.
+Print Assumptions C05_printed_word_with_braced_expansions_is_scanned_back.
